@@ -279,6 +279,8 @@ def make_engine_provider(sysobj, side, oid_is_path, case_sensitive, filter_event
                 for e in evs:
                     yield e
                 return
+            if getattr(self, "flush_held", None):
+                pass
             for e in gen:
                 yield e
                 n += 1
@@ -289,6 +291,53 @@ def make_engine_provider(sysobj, side, oid_is_path, case_sensitive, filter_event
     p = EngineProvider()
     p.connect({"key": "val"})
     return p
+
+
+def make_mangler(kind, sysobj, side):
+    """Event-stream manglings (C14).  Each returns a function batch -> batch applied to what events() yields."""
+    import copy
+    from cloudsync.event import Event
+    from cloudsync.types import FILE
+    held = []
+    seen = []
+
+    def dup(batch):                      # every event delivered twice in a row
+        out = []
+        for e in batch:
+            out += [e, copy.copy(e)]
+        return out
+
+    def replay(batch):                   # whenever new events arrive, everything delivered so far is delivered again first
+        if not batch:
+            return []
+        out = [copy.copy(e) for e in seen] + list(batch)
+        seen.extend(batch)
+        return out
+
+    def reverse(batch):                  # id-stable providers: a batch arrives in the opposite order
+        return list(reversed(batch))
+
+    def delay(batch):                    # id-stable providers: the first event of each batch arrives one delivery late
+        out = held[:] + list(batch[1:])
+        del held[:]
+        if batch:
+            held.append(batch[0])
+        return out
+
+    def droppath(batch):                 # id-stable providers: events carry no path
+        out = []
+        for e in batch:
+            e = copy.copy(e)
+            e.path = None
+            out.append(e)
+        return out
+
+    def ghosts(batch):                   # an event without id, and an event for an object that does not exist (any more)
+        return list(batch) + [Event(FILE, None, sysobj.roots[side] + "/ghost-no-id", None, True),
+                              Event(FILE, "ghost-oid-%d" % side, None, None, True),
+                              Event(FILE, "ghost-oid-gone-%d" % side, None, None, False)]
+
+    return {"dup": dup, "replay": replay, "reverse": reverse, "delay": delay, "droppath": droppath, "ghosts": ghosts}[kind]
 
 
 class Recorder:
@@ -644,6 +693,12 @@ class System:
                 raise MachineryError("notification delivery failed: %r" % (e,))
 
     def intake(self, side, k=0):
+        if getattr(self, "walk_before_intake", False):
+            self.in_user = True
+            try:
+                self.cs.walk(side=side)
+            finally:
+                self.in_user = False
         self.eng[side].max_events = k
         try:
             return self._guarded("EL" if side == 0 else "ER", self.cs.emgrs[side].do)
@@ -805,9 +860,10 @@ class System:
         elif k == "R":
             self.restart(tok[1] if len(tok) > 1 else "intact")
         elif k == "F":
-            self.inj = {"n": 0, "nmut": 0, "fail_at": tok[1], "kind": tok[2]}
+            self.inj = {"n": 0, "nmut": 0, "fail_at": tok[1], "kind": tok[2],
+                        "sw0": self.storage.nwrites if self.storage else 0}
         elif k == "K":
-            self.inj = self.inj or {"n": 0, "nmut": 0}
+            self.inj = self.inj or {"n": 0, "nmut": 0, "sw0": self.storage.nwrites if self.storage else 0}
             if tok[1] == "storage":
                 self.inj["crash_before_sw"] = (self.storage.nwrites if self.storage else 0) + tok[2]
             else:
